@@ -575,7 +575,17 @@ def b2(rep, w):
             'patch_jump subtracts %s and patches at offsets +%s (operand width is %d)' % (subs, adds, short), pj.loc())
     el = w.require_fn(P + 'emit_loop', 'C04')
     adds = [v for (op, v) in consts_in(el, ('Add',))]
-    r.check(adds == [short], 'emit_loop: offset = len - loop_start + %s' % adds, 'emit_loop adds %s for the operand it is about to write (operand width %d)' % (adds, short), el.loc())
+    # the VM subtracts the operand from the ip *after* the operand: the distance is (code length when it is read) - loop_start + the bytes of the
+    # Loop instruction written after that reading - 2 when the opcode is already out, 3 when the whole instruction follows
+    lens = [bi for bi, t in el.calls() if strip_generics(callee_name(t) or '').endswith('::len')]
+    if len(lens) != 1:
+        raise Broken('C04', 'anchor', 'emit_loop: %d readings of the code length (expected one)' % len(lens))
+    later = 0
+    for (bi, k, o, d) in emit.emissions(w, el):
+        if bi in el.reachable_blocks(lens[0]) and bi != lens[0]:
+            later += 2 if k == 'bytes' else 1
+    r.check(adds == [later], 'emit_loop: offset = len - loop_start + %s, %d bytes of the instruction follow the reading of len' % (adds, later),
+            'emit_loop adds %s to the distance, but %d bytes of the Loop instruction are written after the code length was read (the VM counts back from the end of the operand)' % (adds, later), el.loc())
     po = w.require_fn(P + 'patch_offset_at', 'C04')
     adds = [v for (op, v) in with_new_helpers(po, ('Add',))]
     subs = [v for (op, v) in consts_in(po, ('Sub',))]
